@@ -10,10 +10,10 @@ TECHNIQUE = 'exhaustive enumeration of all strings up to a length bound over an 
 ASSUMPTIONS = ['engines other than SQLite are not executed: their lexical rules are transcribed from documentation in mc/sqllex.py',
                'strings containing `${` other than the words ${f} (defined flag) and ${g} (undefined flag) are not generated: the compiler rejects them with a diagnostic (DESIGN 2.4)']
 
-SYMS = ["'", '"', '\\', '\n', '\t', '%', '{', '}', '$', '#', '/*', '*/', '--', ';', 'é', 'a']
+SYMS = ["'", '"', '\\', '\n', '\t', '%', '{', '}', '$', '#', '/*', '*/', '--', ';', 'é', 'a', '|']
 WORDS = ['%s', '{0}', '${f}', "''", "\\'", '%(x)s', '{}', '\\n', ' ', "';--", '";', "\\\\'"]
 FLAG_F = 'Vf'
-POSITIONS = ['fact', 'list', 'record', 'concat', 'flag_default', 'user_flag', 'grounded', 'nested', 'body_eq', 'body_in', 'call_arg']
+POSITIONS = ['fact', 'list', 'record', 'concat', 'flag_default', 'user_flag', 'grounded', 'nested', 'body_eq', 'body_in', 'call_arg', 'concat_tight', 'functor_arg', 'in_left']
 
 
 def strings(maxlen):
@@ -22,6 +22,7 @@ def strings(maxlen):
     for t in itertools.product(SYMS, repeat=n): out.append(''.join(t))
   out += WORDS
   out += [a + b for a in WORDS for b in WORDS if a != b and '${f}' not in (a, b)][::3]
+  out += ['a | b', 'a|', '|', "C:\\Users\\O'Brien\\notes.txt", "don't match \\d+\t."]
   out += ["it's a \"test\" \\ 100% {ok} {0} %s # -- /* */ ;\n\t \u00e9 \\' end", "x" * 300 + "'" + "y" * 300, "'" * 9, '\\' * 7, "a'b\"c'd\"e\\f\ng\th%i{j}k$l#m/*n*/o--p;q", "'; DROP TABLE t; --", '\\\\\'\\\'']
   out += [w + s for w in ('${f}', '%s') for s in ("'", '"', '\\', 'a')] + [s + '${f}' for s in ("'", '"', '\\')]
   seen = set(); res = []
@@ -62,10 +63,14 @@ def program(dialect, position, items):
     elif position == 'body_eq': lines.append('T(%d, s) :- s == %s;' % (i, lit))
     elif position == 'body_in': lines.append('T(%d, s) :- s in ["z", %s];' % (i, lit))
     elif position == 'call_arg': lines.append('T(%d, Idf(%s));' % (i, lit))
+    elif position == 'concat_tight': lines.append('T(%d, "<"++%s++">");' % (i, lit))
+    elif position == 'functor_arg': lines += ['V%d := Val(Base: %s);' % (i, lit), 'T(%d, V%d());' % (i, i)]
+    elif position == 'in_left': lines.append('T(%d, s) :- s == %s, %s in ["q", s];' % (i, lit, lit))
     elif position == 'flag_default':
       lines.append('@DefineFlag("fl%d", %s);' % (i, lit)); lines.append('T(%d, FlagValue("fl%d"));' % (i, i))
   if position == 'grounded': lines += ['@Ground(G);', 'T(i, s) :- G(i, s);']
   if position == 'call_arg': lines += ['Idf(x) = x;']
+  if position == 'functor_arg': lines += ['Base() = "d";', 'Val() = Base();']
   return '\n'.join(lines) + '\n'
 
 
@@ -85,7 +90,7 @@ def sqlite_value(position, s):
   e = expand(s)
   if position == 'list': return LV([e, 'z'])
   if position == 'record': return RV((('fld', e), ('n', 1)))
-  if position == 'concat': return '<' + e + '>'
+  if position in ('concat', 'concat_tight'): return '<' + e + '>'
   if position == 'nested': return RV((('a', LV([RV((('b', e), ('c', LV([e, 'y']))))])), ('n', 2)))
   return e
 
@@ -203,7 +208,7 @@ def check_one(dialect, position, meta, out, text, stats, bad, outcomes, ref_cach
     stats['comparisons'] += 1
     e = expand(s)
     want = '<' + e + '>' if False else e
-    ok = want in decoded or (position == 'concat' and any(want == d for d in decoded))
+    ok = want in decoded or (position in ('concat', 'concat_tight') and any(want == d for d in decoded))
     outcomes.add((dialect, position, ok))
     if not ok and '\n' in want and any(isinstance(d, str) and d != want and re.sub(r'\n +', '\n', d) == want for d in decoded):
       bad('multiline-literal-reindented/%s' % dialect, 'string %r comes back re-indented' % e, text, dict(string=s)); continue
